@@ -113,6 +113,10 @@ type Config struct {
 	// UnpricedAssets: asset indexes whose oracle token is not bound to the asset id, so that the
 	// oracle cannot price them: the voting-power update of an AVS that supports one fails
 	UnpricedAssets []int `json:",omitempty"`
+	// ExtraChains: LayerZero ids of further registered client chains (no assets of their own);
+	// an id such as 6 (0x6) is, in hexadecimal, a prefix of the ids 0x65 and 0x66 of the two
+	// chains every world has
+	ExtraChains []uint64 `json:",omitempty"`
 }
 
 // SlashingCfg sets the x/slashing parameters, so that downtime (validators missing from the
@@ -325,6 +329,9 @@ func BuildWorld(cfg Config) (*World, error) {
 	clientChains := []assetstypes.ClientChainInfo{
 		{Name: "ethereum", MetaInfo: "ethereum blockchain", ChainId: 1, FinalizationBlocks: 10, LayerZeroChainID: 101, AddressLength: 20},
 		{Name: "holesky", MetaInfo: "second client chain", ChainId: 17000, FinalizationBlocks: 10, LayerZeroChainID: 102, AddressLength: 20},
+	}
+	for i, lz := range cfg.ExtraChains {
+		clientChains = append(clientChains, assetstypes.ClientChainInfo{Name: fmt.Sprintf("extra-%d", i), MetaInfo: "further client chain", ChainId: 900 + uint64(i), FinalizationBlocks: 10, LayerZeroChainID: lz, AddressLength: 20})
 	}
 	a0 := cfg.Assets[0]
 	selfAmount := make([]*big.Int, cfg.NumOperators)
